@@ -33,7 +33,8 @@ CFG = dict(
         "appendable layer (property C17): only the explicit flushes (sync(), Close) are modelled for the tx log and the "
         "commit log; flushes caused by write-buffer overflow or chunk rotation and the physical leftovers of the AHT's own "
         "logs after ResetSize are not (scripts that would depend on them are not generated: small FileSize only without "
-        "external commit allowance; no reopen after a Discard followed by a new precommit, except in the directed scripts)",
+        "external commit allowance; no reopen after a Discard followed by a new precommit, except in the directed scripts; "
+        "a replicated tx with BlTxID = 0 is not sent while cLogBuf is full)",
         "the AHT is the list of appended Alh values with RootAt(n) = mth of the first n (its hashing/addressing is property "
         "C08); executable SHA-256 of coq/Merkle/Sha256.v (Uint63 under vm_compute) only to run the model; theorems are "
         "about an abstract hash H, no collision assumption is needed by any C02 theorem",
